@@ -33,6 +33,9 @@ def shapes(level):
     # lengths beyond every small block / table size (32, 33, 40; thorough also 64, 65, 130)
     for L in (32, 33, 40) + ((64, 65, 130) if level >= 1 else ()):
         out.append(("1d", (L,), "secret" if L % 2 else "mixed"))
+    # constant look-up tables of power-of-two length with REPEATED entries (T[i] == T[i+8]: table-folding shortcuts)
+    for L in (16, 32) + ((64,) if level >= 1 else ()):
+        out.append(("1d", (L,), "const-dup"))
     return out
 
 
@@ -51,6 +54,9 @@ def build_array(shape):
         if contents == "const" or (contents == "mixed" and i % 2 == 0):
             return v
         return rt.PrivVal(v)
+    if kind == "1d" and contents == "const-dup":
+        vals = [(3, 7, 4, 9, 5, 8, 6, 2)[i % 8] + (40 if i >= 24 else 0) for i in range(dims[0])]
+        return Array(list(vals)), list(vals)
     if kind == "1d":
         vals = base_values(dims[0])
         return Array([cell(i, v) for i, v in enumerate(vals)]), list(vals)
@@ -71,7 +77,7 @@ def events(shape, level):
     ev = []
     if kind == "1d":
         L = dims[0]
-        idxs = range(-1, L + 1) if L <= 4 else sorted({-1, 0, 1, 7, 15, 16, 31, 32, 33, 63, 64, L - 2, L - 1, L} & set(range(-1, L + 1)))
+        idxs = range(-1, L + 1) if (L <= 4 or contents == "const-dup") else sorted({-1, 0, 1, 7, 15, 16, 31, 32, 33, 63, 64, L - 2, L - 1, L} & set(range(-1, L + 1)))
         for i in idxs:
             for ik in ("S", "K"):
                 ev.append(("read", (ik,), (i,)))
